@@ -267,6 +267,32 @@ func c05Key(c *Ctx, sx *symx.Ctx) {
 			r.Check(hashOK, "O-1", fk+"#hash-of-marshalled-key", c.P.Pos(mc.Pos()), "sha256.Sum256(json.Marshal(keyData))", "the hash is not computed over the marshalled key data")
 		}
 		r.Check(marshalArgOK, "O-1", fk+"#marshals-query-and-options", c.P.Pos(gk.Pos()), "json.Marshal({normalised query, options})", "the value marshalled into the key does not hold both the normalised query and the whole options struct")
+		// the options go into the key as they were given: a normalisation applied
+		// only to the key (a default filled in, a field cleared) makes two requests
+		// that the engine answers differently share an entry
+		rewritten := ""
+		for _, ref := range *gk.Params[2].Referrers() {
+			st, ok := ref.(*ssa.Store)
+			if !ok || st.Val != ssa.Value(gk.Params[2]) {
+				continue
+			}
+			cell, ok := st.Addr.(*ssa.Alloc)
+			if !ok {
+				continue
+			}
+			for _, r2 := range *cell.Referrers() {
+				fa, ok := r2.(*ssa.FieldAddr)
+				if !ok {
+					continue
+				}
+				for _, r3 := range *fa.Referrers() {
+					if s2, ok := r3.(*ssa.Store); ok && s2.Addr == ssa.Value(fa) {
+						rewritten = ssau.FieldName(fa)
+					}
+				}
+			}
+		}
+		r.Check(rewritten == "", "O-1", fk+"#options-unmodified", c.P.Pos(gk.Pos()), "no field of the options is rewritten before they are hashed", "options."+rewritten+" is rewritten inside the key function: requests that differ in that field (and that the engine treats differently) get the same key")
 		_ = okKey
 	}
 }
